@@ -228,7 +228,7 @@ func (ex *Exec) instr(s *State, in ssa.Instruction) {
 			at := t.X.Type().Underlying().(*types.Pointer).Elem().Underlying().(*types.Array)
 			n := ex.i64(int(at.Len()))
 			base := &SliceV{ln: n, cp: n}
-			for _, al := range a.alts {
+			for _, al := range ex.eff(a) {
 				if al.obj != 0 && len(al.path) != 0 {
 					unsup("slice of array nested in an object")
 				}
@@ -276,7 +276,7 @@ type rangeIter struct {
 func (ex *Exec) subPtr(s *State, p *PtrV, el PathEl, site string) *PtrV {
 	r := &PtrV{}
 	var nilG []*Term
-	for _, a := range p.alts {
+	for _, a := range ex.eff(p) {
 		if a.obj == 0 {
 			nilG = append(nilG, a.g)
 			continue
@@ -513,8 +513,8 @@ func (ex *Exec) valEq(s *State, a, b Value, t types.Type) *Term {
 	case *PtrV:
 		y := b.(*PtrV)
 		var ds []*Term
-		for _, p := range x.alts {
-			for _, q := range y.alts {
+		for _, p := range ex.eff(x) {
+			for _, q := range ex.eff(y) {
 				if p.obj != q.obj || len(p.path) != len(q.path) {
 					continue
 				}
@@ -571,7 +571,8 @@ func (ex *Exec) valEq(s *State, a, b Value, t types.Type) *Term {
 		}
 		return tb.And(cs...)
 	case *ArrayV:
-		y := b.(*ArrayV)
+		x = ex.flatten(x)
+		y := ex.flatten(b.(*ArrayV))
 		et := t.Underlying().(*types.Array).Elem()
 		var cs []*Term
 		for i := range x.e {
